@@ -67,7 +67,7 @@ PROPS["C04"] = {
                         "every tuple of live nodes as arguments",
                "thorough": "same forests, sequences of 2 calls: each of the 112 shards explores 2-call sequences for 300 s in a "
                     "VERIF_SEED-dependent order (the space is not exhausted; evidence lists the shards as partial)"},
-    "outside": "histories longer than 2 calls; forests other than the catalogue; parsing as a history step",
+    "outside": "histories longer than 2 calls; forests other than the catalogue",
     "assumptions": [],
 }
 
